@@ -47,6 +47,13 @@ theorem decided_name_names_the_resources_in_source :
     CV.Gen.c17_resourceNameFmt = ["fmt.Sprintf(\"%s_%s\", dict[\"name\"], key)"] := by
   exact ⟨rfl, rfl⟩
 
+/-- `ProjectOptions.LoadModel` (the raw-model entry of the cli) hands the loader the **project environment**, like
+    `LoadProject` — it did not before the round-6 `fix:` (finding `load-model:name-precedence`): the model's one
+    `loadX` stands for both entries -/
+theorem loadModel_uses_project_environment_in_source :
+    CV.Gen.c17_body_LoadModel =
+      "{ configDetails, err := o.prepare(ctx) if err != nil { return nil, err } configDetails.Environment = o.Environment return loader.LoadModelWithContext(ctx, *configDetails, o.loadOptions...) }" := rfl
+
 /-! ## the profile options are a frame for the rest of the property -/
 
 theorem runXOpts_append (w : World) (a b : List XOpt) (st : XState) :
